@@ -83,16 +83,22 @@ def c02(r):
         out.append(V("C02/immutable", f"generation {m['generation']} of deme {m['deme']} changed after it was recorded in the history", **m))
     memo = {}
 
-    def true_fit(g):
-        t = tuple(g)
+    offs = r["spec"].get("level_offsets")
+    lvl_of = {}
+
+    def true_fit(g, lvl=0):
+        t = (tuple(g), lvl if offs else 0)
         if t not in memo:
-            memo[t] = struct.unpack("<Q", struct.pack("<d", float(f(vec(g)))))[0]
+            v = float(f(vec(g)))
+            if offs:
+                v = v + offs[lvl]
+            memo[t] = struct.unpack("<Q", struct.pack("<d", v))[0]
         return memo[t]
 
     sentinel = (float("-inf") if mx else float("inf")) if r["spec"].get("has_cutoff") else None
 
-    def chk(g, fit, where, i):
-        tf = true_fit(g)
+    def chk(g, fit, where, i, lvl=0):
+        tf = true_fit(g, lvl)
         if sentinel is not None and fl(fit) == sentinel:
             return True   # the documented sentinel of an exhausted evaluation-cutoff wrapper
         if tf != fit and not (fl(tf) == fl(fit)):
@@ -101,18 +107,21 @@ def c02(r):
         return True
     for i, e in enumerate(r["events"]):
         k = e["e"]
+        if k == "new":
+            lvl_of[e["id"]] = e["level"]
         if k == "gen":
             for g, fit in e["inds"]:
-                if not chk(g, fit, f"deme {e['deme']} generation {e['gi']}", i):
+                if not chk(g, fit, f"deme {e['deme']} generation {e['gi']}", i, lvl_of.get(e["deme"], 0)):
                     break
         elif k == "new" and e["seed"] is not None:
-            chk(e["seed"][0], e["seed"][1], f"seed of {e['id']}", i)
-        elif k == "end" and e.get("best"):
+            # the seed is an individual of the PARENT: it carries the parent level's objective value
+            chk(e["seed"][0], e["seed"][1], f"seed of {e['id']}", i, max(e["level"] - 1, 0))
+        elif k == "end" and e.get("best") and not offs:
             chk(e["best"][0], e["best"][1], "tree best individual", i)
         elif k == "stage":
             for did, c in e["out"].items():
                 for g, fit in c["inds"]:
-                    if not chk(g, fit, f"sprout candidate of {did} after {e['name']}", i):
+                    if not chk(g, fit, f"sprout candidate of {did} after {e['name']}", i, lvl_of.get(did, 0)):
                         break
         if len(out) > 3:
             break
@@ -430,11 +439,31 @@ def c08(r):
 
 
 # ----------------------------------------------------------------------------- C09
+def nbc_mean(cur, mx, trunc):
+    """mean nearest-better distance of a population as defined (best first, int(n*t) kept, strictly better / tie-with-best rule)"""
+    inds = [(vec(g), key(f)) for g, f in cur]
+    srt = sorted(inds, key=lambda t: t[1], reverse=mx)      # stable, like sorted(reverse=True) on Individuals
+    kept = srt[: int(len(srt) * trunc)]
+    if len(kept) < 2 or len({tuple(x.tolist()) for x, _ in kept}) != len(kept):
+        return None       # duplicate genomes are outside the clustering's domain (C15): not compared
+    good = (lambda k_: -k_) if mx else (lambda k_: k_)
+    ds = []
+    for pos in range(1, len(kept)):
+        x, k_ = kept[pos]
+        if good(k_) == good(kept[0][1]):
+            cands = [kept[0]]
+        else:
+            cands = [c for c in kept if good(c[1]) < good(k_)]
+        ds.append(min(float(np.linalg.norm(x - c[0])) for c in cands))
+    return float(np.mean(ds)) if ds else None
+
+
 def c09(r):
     out = []
     ev = r["events"]
     sib = None
     prev = None
+    pops9 = None
     for i, e in enumerate(ev):
         k = e["e"]
         if k == "centroid":
@@ -448,8 +477,21 @@ def c09(r):
                 out.append(V("C09/centroid", f"centroid of deme {e['deme']} is {list(got)} but the mean of its current population is {list(want)}", event=i))
         elif k == "stage_in":
             sib = e["sib"]
+        elif k == "pops":
+            pops9 = e["pops"]
         elif k == "stage":
             nm = e["name"]
+            if nm in ("gen:NBC_Generator", "gen:NBCGeneratorWithLocalMethod") and pops9 is not None:
+                # the threshold of NBC_FarEnough is factor x the mean nearest-better distance of the PARENT's own population
+                mx9 = r["spec"]["maximize"]
+                for did, c in e["out"].items():
+                    q = pops9.get(did)
+                    if q is None or not q["active"] or c["nbc"] is None:
+                        continue
+                    want = nbc_mean(q["cur"], mx9, e["params"].get("truncation_factor", 1.0))
+                    got = fl(c["nbc"])
+                    if want is not None and not (abs(got - want) <= 1e-9 * max(1.0, abs(want))):
+                        out.append(V("C09/nbc-mean", f"NBC generator attached mean nearest-better distance {got!r} to deme {did}; its own current population gives {want!r}", event=i))
             if nm in ("deme:FarEnough", "deme:NBC_FarEnough") and sib is not None and prev is not None:
                 p = e["params"]
                 for did, c in e["out"].items():
@@ -641,6 +683,16 @@ def c12(r):
                 break
             elit = (eng in ("SEA", "SEAWithCrossover", "GAStyleSEA", "SEAWithAdaptiveMutation") and lv.get("k_elites", 1) >= 1) or eng in ("DE", "DEdither", "SHADE")
             if has_nan:
+                # NaN is the worst fitness (Problem.worse_than); DE / SHADE keep the parent against a NaN trial, so their rank-wise guarantee is still
+                # well-defined; SEA's numpy-argsort-based top-k is not compared on NaN populations (NaN sorts last in both directions)
+                if eng in ("DE", "DEdither", "SHADE"):
+                    BIG = 1 << 70
+                    isn = lambda b: (b & 0x7FF0000000000000) == 0x7FF0000000000000 and (b & 0xFFFFFFFFFFFFF) != 0
+                    gd = lambda b: BIG if isn(b) else (-key(b) if mx else key(b))
+                    sa, sb = sorted(gd(x) for x in fa), sorted(gd(x) for x in fb_)
+                    if any(y > x for x, y in zip(sa, sb)):
+                        out.append(V("C12/kth-best", f"deme {d} ({eng}): some k-th best fitness got worse from generation {a} to {b} (NaN counted as the worst fitness)"))
+                        break
                 continue
             if elit:
                 ba = max(fa, key=key) if mx else min(fa, key=key)
@@ -678,7 +730,7 @@ def c18(r):
         if k == "round_b":
             before = {d["id"]: d for d in e["snap"]["demes"]}
         elif k == "seeds":
-            seeds = set(e["seeds"])
+            seeds = {d for d, inds in e["seeds"].items() if inds}     # a deme "sprouted" only if the round took at least one seed from it
         elif k == "round_e":
             now = {d["id"]: d for d in e["snap"]["demes"]}
             for did, d in now.items():
